@@ -63,6 +63,8 @@ SHIFT_SCALARS = {"_total_samples", "_total_batches", "_lambda"}
 SHIFT_RECS = {"_retraining_recs"}
 EPOCH_DICTS = {"distances", "epsilon_values", "thresholds"}
 TAIL_LISTS = {"_stream"}
+# documented public outputs that a fresh detector may not have created yet: absent counts as None
+OPTIONAL_OUTPUTS = {"feature_epsilons"}
 
 
 def _shift_eq(ctx, a, f, off):
@@ -98,6 +100,10 @@ def equiv_state(ctx, A, F, off, ignore=()):
         if c is False:
             bad.append(k)
         conds.append(c)
+    for k in OPTIONAL_OUTPUTS:
+        if k in sa and k not in sf and k not in ignore and sa[k] is not None:
+            bad.append(k + " (stale: a fresh detector has none)")
+            conds.append(False)
     return land(*conds), bad
 
 
